@@ -49,7 +49,7 @@ func marker(tenant int) string { return fmt.Sprintf("zqt%dx", tenant) }
 
 var words = []string{"alpha", "beta", "gamma", "delta", "omega", "kappa"}
 
-func genWorld(r *gen.Rand, compound bool, prefix string) world {
+func genWorld(r *gen.Rand, compound bool, prefix string, collide bool) world {
 	var w world
 	nRepos := 1
 	if compound {
@@ -89,13 +89,24 @@ func genWorld(r *gen.Rand, compound bool, prefix string) world {
 			rp.Subs = append(rp.Subs, subRepo{Path: "sub" + strconv.Itoa(i), Name: fmt.Sprintf("%s/%s-sub%d", mk, prefix, i),
 				URL: fmt.Sprintf("su-%s-%d/{{.Path}}", mk, i), Frag: fmt.Sprintf("#S-%s-%d", mk, i)})
 		}
+		if collide && i > 0 && r.Chance(1, 2) {
+			// the same repository name under another owner (names are only unique per tenant)
+			// (a neutral name: it must not carry anybody's marker)
+			j := r.Intn(i)
+			neutral := fmt.Sprintf("shared/%s-n%d", prefix, j)
+			w.Repos[j].Name = neutral
+			rp.Name = neutral
+			if r.Chance(1, 3) {
+				rp.ID = w.Repos[j].ID // and even the same repository id
+			}
+		}
 		nDocs := r.Range(1, 4)
 		if !compound && r.Chance(1, 6) {
 			nDocs = 0
 		}
 		for j := 0; j < nDocs; j++ {
 			var d doc
-			d.Name = fmt.Sprintf("%s/%s_%s_%d.%s", gen.Pick(r, []string{"src", "pkg", "doc"}), gen.Pick(r, words), mk, j,
+			d.Name = fmt.Sprintf("%s/%s_%s_%d_%d.%s", gen.Pick(r, []string{"src", "pkg", "doc"}), gen.Pick(r, words), mk, i, j,
 				gen.Pick(r, []string{"go", "py", "md"}))
 			var lines []string
 			for l := r.Range(1, 4); l > 0; l-- {
